@@ -1,0 +1,174 @@
+//go:build verif
+
+package engine
+
+import (
+	"context"
+	"encoding/json"
+	"errors"
+	"math/rand"
+	"os"
+	"runtime"
+	"strconv"
+	"sync"
+	"time"
+)
+
+// File sink for the verif hooks. When the environment variable PANDORA_VERIF_TRACE names a file, every
+// hook event of this process (see verif_on.go) is appended to that file as one JSON line, so that the
+// engine runs made by pandora's own test binaries (`go test -tags verif ./core/engine/... ./tests/acceptance/...`)
+// can be validated against the specification. Nothing is installed when the variable is not set.
+//
+// One line per event, written under one mutex (the line order is the event order):
+//
+//	i     index of the line in this process
+//	g     id of the goroutine that wrote it
+//	pool  pool id, seq its per-pool-id sequence number
+//	ev    PoolNew (newPool was called; wd: an onWaitDone callback was given) or the hook event name
+//	n     instance id / started / awaited
+//	cls   nil | ctx | deadline | ooa | e<k>: VALUE of the error's cause, which is all the engine looks at
+//	      (e<k>: k-th distinct ordinary error text of this process, msg holds the text)
+//	ret   PoolReturn only: nil | ctx (the bare context error) | err (cls is the class of its cause)
+//
+// PANDORA_VERIF_JITTER=<seed> adds a seeded Gosched / microsecond sleep after every line (schedule
+// diversification, as the verification drivers do at their own mock and hook points).
+type verifTraceLine struct {
+	I    int64  `json:"i"`
+	G    int64  `json:"g"`
+	Pool string `json:"pool"`
+	Seq  int64  `json:"seq"`
+	Ev   string `json:"ev"`
+	N    int    `json:"n"`
+	Cls  string `json:"cls"`
+	Ret  string `json:"ret"`
+	Wd   bool   `json:"wd"`
+	Msg  string `json:"msg"`
+}
+
+var verifTrace struct {
+	mu     sync.Mutex
+	f      *os.File
+	lines  int64
+	labels map[string]string
+	rng    *rand.Rand
+}
+
+func init() {
+	path := os.Getenv("PANDORA_VERIF_TRACE")
+	if path == "" {
+		return
+	}
+	f, err := os.OpenFile(path, os.O_CREATE|os.O_WRONLY|os.O_APPEND, 0o644)
+	if err != nil {
+		panic("PANDORA_VERIF_TRACE: " + err.Error())
+	}
+	verifTrace.f = f
+	verifTrace.labels = map[string]string{}
+	if s := os.Getenv("PANDORA_VERIF_JITTER"); s != "" {
+		seed, _ := strconv.ParseInt(s, 10, 64)
+		verifTrace.rng = rand.New(rand.NewSource(seed))
+	}
+	VerifSink = verifTraceSink
+}
+
+func verifTraceSink(pool string, seq int64, ev string, n int, err error) {
+	l := verifTraceLine{Pool: pool, Seq: seq, Ev: ev, N: n}
+	if ev == "PoolReturn" {
+		switch {
+		case err == nil:
+			l.Ret = "nil"
+		case err == context.Canceled || err == context.DeadlineExceeded:
+			l.Ret = "ctx"
+		default:
+			l.Ret = "err"
+		}
+	}
+	verifTraceWrite(l, err)
+}
+
+// verifTracePoolNew is called by verifWrapWaitDone, that is once per newPool.
+func verifTracePoolNew(pool string, hasWaitDone bool) {
+	if verifTrace.f == nil {
+		return
+	}
+	verifTraceWrite(verifTraceLine{Pool: pool, Ev: "PoolNew", Wd: hasWaitDone}, nil)
+}
+
+func verifTraceWrite(l verifTraceLine, err error) {
+	l.G = verifGoroutineID()
+	cause := verifCause(err, false)
+	verifTrace.mu.Lock()
+	switch {
+	case err == nil:
+		l.Cls = "nil"
+	case err == outOfAmmoErr:
+		l.Cls = "ooa"
+	case cause == context.Canceled:
+		l.Cls = "ctx"
+	case cause == context.DeadlineExceeded:
+		l.Cls = "deadline"
+	default:
+		// an ordinary error: named by the text of its innermost error, so that a component's error and the
+		// wrapped error the pool returns for it get the same label
+		l.Msg = verifCause(err, true).Error()
+		lab, ok := verifTrace.labels[l.Msg]
+		if !ok {
+			lab = "e" + strconv.Itoa(len(verifTrace.labels)+1)
+			verifTrace.labels[l.Msg] = lab
+		}
+		l.Cls = lab
+	}
+	l.I = verifTrace.lines
+	verifTrace.lines++
+	b, _ := json.Marshal(l)
+	_, _ = verifTrace.f.Write(append(b, '\n'))
+	k, d := 0, 0
+	// (no delay between the WaitDone line and the callback it announces: pool.Run may return as soon as awaitErr
+	// is closed, and some of the repository's tests look at their callback's flag right after Run returned)
+	if verifTrace.rng != nil && l.Ev != "WaitDone" {
+		k, d = verifTrace.rng.Intn(20), verifTrace.rng.Intn(200)
+	}
+	verifTrace.mu.Unlock()
+	switch {
+	case k < 9:
+	case k < 15:
+		for i := 0; i <= k-9; i++ {
+			runtime.Gosched()
+		}
+	default:
+		time.Sleep(time.Duration(d) * time.Microsecond)
+	}
+}
+
+// verifCause follows Cause() like github.com/pkg/errors.Cause does (that is what errutil.IsCtxError looks
+// at: a fmt.Errorf("%w") wrapper is its own cause); with unwrap it also follows Unwrap() down to the
+// innermost error.
+func verifCause(err error, unwrap bool) error {
+	for err != nil {
+		if c, ok := err.(interface{ Cause() error }); ok {
+			if c.Cause() == nil {
+				break
+			}
+			err = c.Cause()
+			continue
+		}
+		if u := errors.Unwrap(err); unwrap && u != nil {
+			err = u
+			continue
+		}
+		break
+	}
+	return err
+}
+
+func verifGoroutineID() int64 {
+	var buf [64]byte
+	s := buf[:runtime.Stack(buf[:], false)]
+	// "goroutine 123 [running]:"
+	const prefix = len("goroutine ")
+	var id int64
+	for i := prefix; i < len(s) && s[i] >= '0' && s[i] <= '9'; i++ {
+		id = id*10 + int64(s[i]-'0')
+	}
+	return id
+}
